@@ -164,3 +164,13 @@ mod tests {
     }
     
 }
+#[cfg(flounder_verif)]
+#[allow(dead_code)]
+impl TranspositionTable {
+    /// All entries, sorted by key (the map's own order is unspecified).
+    pub fn verif_entries(&self) -> Vec<Entry> {
+        let mut v: Vec<Entry> = self.table.values().copied().collect();
+        v.sort_by_key(|e| e.hash_key);
+        v
+    }
+}
